@@ -1,8 +1,8 @@
 (* Formats.v — exact models of two format rules of property C02 whose Go implementation is
    self-contained:  date  = time.Parse("2006-01-02", s)   (c_date.go)
                     uuid  = parseBytes                      (c_uuid.go, after github.com/google/uuid)
-   on the decoded string.  No proofs in this file. *)
-From Coq Require Import List NArith Bool Arith.
+   on the decoded string; and of datetime (c_datetime.go isRFC3339DateTime, the library's own RFC 3339 parser since fix 3e85282).  No proofs in this file. *)
+From Coq Require Import List NArith ZArith Bool Arith.
 From Coq Require Import Strings.Byte.
 Import ListNotations.
 From JS Require Import Common.Wire.
@@ -68,13 +68,73 @@ Definition uuid_ok (b : bytes) : bool :=
   else if Nat.eqb n 32 then forallb is_hex b
   else false.
 
-(* ---------- wire:  "d <hex>" / "u <hex>"  ->  T | F ---------- *)
+(* ---------- datetime (constraint/c_datetime.go isRFC3339DateTime, fix 3e85282) ----------
+   date-time = full-date ("T"/"t") 2DIGIT ":" 2DIGIT ":" 2DIGIT ["." 1*DIGIT] ("Z"/"z" / ("+"/"-") 2DIGIT ":" 2DIGIT)
+   hour <= 23, minute <= 59, second <= 60; offset hour <= 23, minute <= 59; a second of 60 only as the last second
+   of a day of UTC.  time.Parse("2006-01-02", s[:10]) is [date_ok]. *)
+Definition two_digits (a b : byte) (max : N) : option N :=
+  if (is_digit a && is_digit b)%bool then
+    let n := (dig a * 10 + dig b)%N in if N.leb n max then Some n else None
+  else None.
+Fixpoint drop_digits (s : bytes) : bytes :=
+  match s with c :: r => if is_digit c then drop_digits r else s | [] => [] end.
+(* the rest behind the seconds: optional fraction, then the zone; Some offset in minutes (as Z) *)
+Definition zone_offset (s : bytes) : option Z :=
+  match s with
+  | [z] => if (N.eqb (bN z) 90 || N.eqb (bN z) 122)%bool then Some 0%Z else None
+  | [sg; h1; h2; c; m1; m2] =>
+    if ((N.eqb (bN sg) 43 || N.eqb (bN sg) 45) && N.eqb (bN c) 58)%bool then
+      match two_digits h1 h2 23, two_digits m1 m2 59 with
+      | Some oh, Some om =>
+        let off := Z.of_N (oh * 60 + om) in
+        Some (if N.eqb (bN sg) 45 then (- off)%Z else off)
+      | _, _ => None
+      end
+    else None
+  | _ => None
+  end.
+Definition after_seconds (s : bytes) : option bytes :=
+  match s with
+  | c :: r =>
+    if N.eqb (bN c) 46 then
+      match r with
+      | d :: _ => if is_digit d then Some (drop_digits r) else None
+      | [] => None
+      end
+    else Some s
+  | [] => None                      (* s[0] on an empty rest: the length test (>= 20) excludes it *)
+  end.
+Definition datetime_ok (s : bytes) : bool :=
+  if Nat.ltb (length s) 20 then false
+  else
+    match skipn 10 s with
+    | t :: h1 :: h2 :: c1 :: m1 :: m2 :: c2 :: s1 :: s2 :: rest =>
+      if ((N.eqb (bN t) 84 || N.eqb (bN t) 116) && N.eqb (bN c1) 58 && N.eqb (bN c2) 58 && date_ok (firstn 10 s))%bool then
+        match two_digits h1 h2 23, two_digits m1 m2 59, two_digits s1 s2 60 with
+        | Some hh, Some mi, Some ss =>
+          match after_seconds rest with
+          | Some z =>
+            match zone_offset z with
+            | Some off =>
+              (negb (N.eqb ss 60) || Z.eqb (Z.modulo (Z.modulo (Z.of_N (hh * 60 + mi) - off) 1440 + 1440) 1440) 1439)%bool
+            | None => false
+            end
+          | None => false
+          end
+        | _, _, _ => false
+        end
+      else false
+    | _ => false
+    end.
+
+(* ---------- wire:  "d <hex>" / "u <hex>" / "t <hex>"  ->  T | F ---------- *)
 Definition formats_model_line (line : bytes) : bytes :=
   match split_on sp line with
   | [[k]; h] =>
     match unhex (match h with [x2d] => [] | _ => h end) with
     | Some s => if byte_eqb k x64 then print_bool (date_ok s)
-                else if byte_eqb k x75 then print_bool (uuid_ok s) else [x42; x41; x44]
+                else if byte_eqb k x75 then print_bool (uuid_ok s)
+                else if byte_eqb k x74 then print_bool (datetime_ok s) else [x42; x41; x44]
     | None => [x42; x41; x44]
     end
   | _ => [x42; x41; x44]
